@@ -18,11 +18,11 @@ open Nic.NgxLex
 /-! ### inside an unquoted word -/
 
 /-- A word-safe value read inside an unquoted word produces no structural event and leaves the tokenizer
-inside that same word. -/
+inside that same word, with no `$` pending. -/
 theorem word_hole_inert (s : St) (v : List Char) (hm : s.mode = .word) (he : s.esc = false) (hr : s.err = false)
     (hv : WordSafe v) : run s v = ({ s with var := false }, []) := by
-  obtain ⟨hne, hall, hend⟩ := hv
-  rw [run_word s v hm he hr hall hne, hend]
+  obtain ⟨hne, hhd, hgo⟩ := hv
+  exact run_wordGo v s false hm he hr (by rw [wordGo_var v hhd s.var hne]; exact hgo)
 
 /-- The property, for an interpolation site inside an unquoted word: two word-safe values give the same
 skeleton, whatever text precedes and follows. -/
@@ -34,31 +34,70 @@ theorem word_hole_irrelevant (pre post v₁ v₂ : List Char)
   simp only [List.append_assoc, run_append init pre, run_append (run init pre).1,
     word_hole_inert _ v₁ hm he hr h₁, word_hole_inert _ v₂ hm he hr h₂]
 
+/-- In word mode the `var` flag only matters when the next character is `{`. -/
+theorem step_word_var (s : St) (c : Char) (hm : s.mode = .word) (he : s.esc = false) (hr : s.err = false)
+    (hc : c ≠ '{') (b : Bool) :
+    step { s with var := b } c = step { s with var := false } c := by
+  have h : (c == '{') = false := by simpa using hc
+  unfold step
+  simp [hm, he, hr, h, endDir, fresh]
+
+/-- A value that is inert but may end in `$` (`WordBody`, e.g. a regex path `/a$`): the skeleton is still
+independent of the value provided the text after the site does not begin with `{` — which is what every such
+site in the templates satisfies (it is followed by a space or `;`). -/
+theorem word_body_irrelevant (pre post v₁ v₂ : List Char)
+    (hm : (run init pre).1.mode = .word) (he : (run init pre).1.esc = false) (hr : (run init pre).1.err = false)
+    (h₁ : WordBody v₁) (h₂ : WordBody v₂) (hp : post.head? ≠ some '{') (hpne : post ≠ []) :
+    events (pre ++ v₁ ++ post) = events (pre ++ v₂ ++ post) := by
+  obtain ⟨n₁, d₁, g₁⟩ := h₁
+  obtain ⟨n₂, d₂, g₂⟩ := h₂
+  obtain ⟨b₁, e₁⟩ := Option.isSome_iff_exists.mp g₁
+  obtain ⟨b₂, e₂⟩ := Option.isSome_iff_exists.mp g₂
+  have r₁ := run_wordGo v₁ (run init pre).1 b₁ hm he hr (by rw [wordGo_var v₁ d₁ _ n₁]; exact e₁)
+  have r₂ := run_wordGo v₂ (run init pre).1 b₂ hm he hr (by rw [wordGo_var v₂ d₂ _ n₂]; exact e₂)
+  cases post with
+  | nil => exact absurd rfl hpne
+  | cons c cs =>
+    have hc : c ≠ '{' := by simpa using hp
+    unfold events
+    simp only [List.append_assoc, run_append init pre, run_append (run init pre).1, r₁, r₂, run_cons,
+      step_word_var (run init pre).1 c hm he hr hc b₁, step_word_var (run init pre).1 c hm he hr hc b₂]
+
 /-! ### at the start of a token -/
 
 theorem step_token_start (s : St) (c : Char) (hm : s.mode = .space) (he : s.esc = false) (hr : s.err = false)
     (hv : s.var = false) (hc : startChar c = true) : step s c = ({ s with mode := .word, var := (c == '$') }, []) := by
-  simp only [startChar, wordChar, Bool.and_eq_true, Bool.not_eq_true', Bool.or_eq_false_iff] at hc
-  obtain ⟨⟨⟨⟨h1, h2⟩, h3⟩, h4⟩, ⟨⟨h5, h6⟩, h7⟩, h8⟩ := hc
+  simp only [startChar, Bool.not_eq_true', Bool.or_eq_false_iff] at hc
+  obtain ⟨⟨⟨⟨⟨⟨⟨h1, h2⟩, h3⟩, h4⟩, h5⟩, h6⟩, h7⟩, h8⟩ := hc
   unfold step
   simp only [hm, he, hr, h1, h2, h3, h4, h5, h6, h7, h8]
   by_cases hd : c = '$'
   · subst hd; simp
   · simp [hd, hv]
 
+/-- reading the first character of a token is what `wordGo` says about it -/
+theorem wordGo_start (c : Char) (cs : List Char) (hc : startChar c = true) :
+    wordGo false (c :: cs) = wordGo (c == '$') cs := by
+  simp only [startChar, Bool.not_eq_true', Bool.or_eq_false_iff] at hc
+  obtain ⟨⟨⟨⟨⟨⟨⟨h1, h2⟩, h3⟩, h4⟩, _⟩, _⟩, _⟩, _⟩ := hc
+  by_cases hd : c = '$'
+  · subst hd; simp [wordGo]
+  · have : (c == '$') = false := by simpa using hd
+    simp [wordGo, h1, h2, h3, h4, this]
+
+theorem token_run (s : St) (c : Char) (cs : List Char) (b : Bool) (hm : s.mode = .space) (he : s.esc = false)
+    (hr : s.err = false) (hvar : s.var = false) (hc : startChar c = true) (hgo : wordGo false (c :: cs) = some b) :
+    run s (c :: cs) = ({ s with mode := .word, var := b }, []) := by
+  rw [run_cons, step_token_start s c hm he hr hvar hc]
+  rw [wordGo_start c cs hc] at hgo
+  have := run_wordGo cs { s with mode := .word, var := (c == '$') } b rfl (by simpa using he) (by simpa using hr) hgo
+  simp [this]
+
 /-- A token-safe value read between tokens starts exactly one word and produces no structural event. -/
 theorem token_hole_inert (s : St) (v : List Char) (hm : s.mode = .space) (he : s.esc = false) (hr : s.err = false)
     (hvar : s.var = false) (hv : TokenSafe v) : run s v = ({ s with mode := .word, var := false }, []) := by
-  obtain ⟨c, cs, rfl, hc, hall, hend⟩ := hv
-  rw [run_cons, step_token_start s c hm he hr hvar hc]
-  cases cs with
-  | nil =>
-    simp only [endsDollar] at hend
-    simp [run_nil, hend]
-  | cons d ds =>
-    have := run_word { s with mode := .word, var := (c == '$') } (d :: ds) rfl (by simpa using he) (by simpa using hr) hall (by simp)
-    simp only [endsDollar] at hend
-    simp [this, hend]
+  obtain ⟨c, cs, rfl, hc, hgo⟩ := hv
+  exact token_run s c cs false hm he hr hvar hc hgo
 
 theorem token_hole_irrelevant (pre post v₁ v₂ : List Char)
     (hm : (run init pre).1.mode = .space) (hr : (run init pre).1.err = false)
@@ -163,6 +202,7 @@ example : events "set $x \"a\";return 200 \"b\";".toList = [.dir 3, .dir 3] := b
 
 /-- Non-vacuity of the hypotheses: a word site, a token site and a quoted site that occur in the templates. -/
 example : (run init "proxy_pass http://".toList).1.mode = .word ∧ WordSafe "vs_d_v1_u".toList := by decide
+example : WordSafe "${request_uri}${arg_user}".toList ∧ WordBody "/path$".toList ∧ ¬ WordSafe "/path$".toList := by decide
 example : (run init "server_name ".toList).1.mode = .space := by decide
 example : InQuote (run init "return 200 \"".toList).1 '"' ∧ QuoteSafe '"' "hello \\\"world\\\"; } {".toList := by
   refine ⟨Or.inl ⟨by decide, rfl⟩, by decide⟩
